@@ -50,9 +50,11 @@ def gen_spec(rng, kind=None):
     return {"kind": kind, "variants": variants, "generic": generic, "vals": vals, "entry": rng.choice(["attr", "derive"])}
 
 
-def type_text(spec):
+def type_text(spec, control=False):
     g = "<T>" if spec["generic"] else ""
     head = "#[::derive_ex::derive_ex(Clone)]\n" if spec["entry"] == "attr" else "#[derive(::derive_ex::Ex)]\n#[derive_ex(Clone)]\n"
+    if control:
+        head = "#[derive(Clone)]\n"
     bodies = []
     for v in spec["variants"]:
         tys = [FK[f["kind"]][0] for f in v["fields"]]
@@ -99,9 +101,9 @@ def dump_fn(spec):
     return f"fn dump(x: &{inst}) -> ::std::string::String {{ match x {{ {' '.join(arms)} }} }}"
 
 
-def render(spec):
+def render(spec, control=False):
     inst = f"Ty<{REC}>" if spec["generic"] else "Ty"
-    out = [type_text(spec), dump_fn(spec), "pub fn run() {"]
+    out = [type_text(spec, control), dump_fn(spec), "pub fn run() {"]
     # reference traces at field level (hand-written calls of the field type's own Clone)
     for (vi, seed) in spec["vals"]:
         for fi, f in enumerate(spec["variants"][vi]["fields"]):
@@ -210,7 +212,11 @@ def run(rep, tier, rng):
     while len(specs) < NRANDOM[tier]:
         specs.append(gen_spec(rng))
     cases = [C.Case(f"c{i}", render(s), {"spec": s}) for i, s in enumerate(specs)]
-    _, notes = C.run_cases(cases, "c07", header=HEADER, batch_size=30)
+    ctls = [C.Case(f"k{i}", render(s, control=True), {}) for i, s in enumerate(specs)]
+    _, notes = C.run_cases(cases + ctls, "c07", header=HEADER, batch_size=30)
+    ctl_ok = {c.name[1:]: c.status == "ok" for c in ctls}
+    rep.count("controls_compiled", sum(ctl_ok.values()))
+    rep.count("controls_rejected", sum(1 for v in ctl_ok.values() if not v))
     for n in notes:
         rep.inconcl(n)
     sigs = {}
@@ -220,8 +226,8 @@ def run(rep, tier, rng):
             continue
         if c.status == "compile_fail":
             who, d0 = C.blame(c)
-            if who == "harness":
-                rep.inconcl(f"generated program does not compile outside derive_ex's output: {str(d0['message'])[:150]}")
+            if who == "harness" and not ctl_ok.get(c.name[1:]):
+                rep.inconcl(f"generated program does not compile and neither does its std-derive control: {str(d0['message'])[:150]}")
                 continue
             msg, code = d0["message"] or "", str(d0["code"])
             sigs.setdefault(f"C07|compile_fail|{code}|{msg[:50]}", []).append((c, f"does not compile: {msg[:200]}"))
